@@ -254,7 +254,25 @@ def rule_final_ack(R):
          "acknowledgement", where=pb.span)
 
 
+def rule_invalidate(R):
+    """handles are invalidated exactly by a fresh session: the reset always advances the generation a handle is
+    compared with, and nothing else writes it"""
+    from .c05 import clause_reset_unconditional
+    f = R.f
+    clause_reset_unconditional(R, "invalidate/on-every-fresh-session")
+    rst = outq.session_reset(f)
+    n = 0
+    for (b, bb, j, dst, rv, s, final) in f.field_stores(roles.SDATA, "generation"):
+        if b.fn_name == "new":
+            continue
+        n += 1
+        R.ob("invalidate/only-by-reset/%s" % b.fn_name, b.name == rst.name,
+             "the generation that handles are compared with changes only in the session reset (found a store in %s)" % b.name, where=s["span"])
+    R.floor("invalidate/only-by-reset", n, 1, "stores to the generation counter")
+
+
 def run(R):
     R.rule("status", rule_status)
     R.rule("handle", rule_handle)
     R.rule("final-ack", rule_final_ack)
+    R.rule("invalidate", rule_invalidate)
